@@ -144,6 +144,11 @@ func c08Make(w *W, r *rand.Rand, k int) *c08Case {
 	}
 	cfg := cfgFor(tree, OptSet(r.Intn(16)), undefined)
 	cfg.Infix = infix
+	if r.Intn(4) == 0 {
+		// a Config with many entries in every map (sizes around powers of two, where a map or a lookup table may change shape)
+		cfg.Pad = []int{63, 64, 65, 128, 300, 1000}[r.Intn(6)]
+		w.Inc("padded_configs")
+	}
 	cfg.Consts = map[string]interface{}{}
 	for n, v := range stdConsts {
 		cfg.Consts[n] = v
